@@ -1,5 +1,6 @@
 """C13 — Retry/reservation loops terminate and follow protocol for all outcome sequences."""
 import inspect
+import itertools
 
 from ..lib import lean
 from ..sim import dev11
@@ -9,9 +10,11 @@ from ..translate import loops10
 ID = 'C13'
 TARGETS = ['PyIpmi.Props.C13', 'drv_c13']
 LEVEL = 'proof'
-RULE = ('the real helpers are called with scripted callables / a scripted interface; the outcome tree over the 7-letter '
-        'alphabet {completed, in-progress, reservation-cancelled, timeout, response-unavailable, node-busy, other(0xC1)} '
-        'is explored depth-first and pruned to reachable prefixes (a prefix is extended only if the helper asked for one '
+RULE = ('the real helpers are called with scripted callables / a scripted interface; the outcome tree over the 8-letter '
+        'alphabet {completed, in-progress, reservation-cancelled, timeout AS A COMPLETION CODE (C3h), timeout AS NO ANSWER '
+        '(letter N: the callable - send_fn / clear_fn / reserve_fn / interface.send_and_receive / the byte-level interface - '
+        'RAISES pyipmi.errors.IpmiTimeoutError, as the rmcp / ipmb / aardvark interfaces do for a silent target), '
+        'response-unavailable, node-busy, other(0xC1)} is explored depth-first and pruned to reachable prefixes (a prefix is extended only if the helper asked for one '
         'more outcome), to depth 5 (quick) / 8 (thorough), for budgets 1..6, with and without a caller-supplied reservation; '
         'every prefix still alive at full depth is continued with each of the 7 letters repeated for ever (call-count guard '
         'against hangs); plus seeded longer sequences with random other-codes and budgets up to 12.  Compared with the Lean '
@@ -48,7 +51,16 @@ RULE = ('the real helpers are called with scripted callables / a scripted interf
         'for time.sleep accepts / refuses durations as the real one (negative, NaN -> ValueError; non-number -> TypeError) and '
         'records them; judged per run.  '
         'RESERVE OUTCOMES for the three helpers too: reserve_fn raises CompletionCodeError (node busy / timeout / other) at '
-        'its k-th call, k = 0..2 (compared with the model, judged: the error propagates, nothing is called after it).')
+        'its k-th call, k = 0..2 (compared with the model, judged: the error propagates, nothing is called after it); '
+        'the same with reserve_fn raising IpmiTimeoutError (N).  NO ANSWER (N) is a letter of every stream above (first '
+        'position x budgets 1..12, depth-first exploration, tails, seeded sequences; SDR and SEL byte-level devices too): '
+        'chunk / clear / send / the clear glue are compared with the Lean model over the extended alphabet '
+        '(Model/RetryNoAnswer.lean), the SDR / SEL operations are judged by the oracle only.  Oracle for N: the request cap '
+        'turns "still sending" into <helper>:unbounded:timeout-exception; the bounds count unanswered requests like any '
+        'other; IpmiTimeoutError is an accepted end only when the LAST call got no answer; an operation whose last call got '
+        'no answer ends with IpmiTimeoutError or RetryError, never with a result; send_message and the SEL loops send '
+        'nothing behind an unanswered request.  search(): when a tie broke and run left no violation, every helper x budgets '
+        '1..12 x sequences of up to 3 outcomes containing N x every tail is tried again, oracle only.')
 ASSUMPTIONS = [
     'control flow of helper.get_sdr_chunk_helper/_clear_repository/clear_repository_helper and Ipmi.send_message is modelled by hand '
     '(Model/Retry.lean) and tied by this correspondence run; constants, loop tests and call sites are re-read from the source by '
@@ -62,6 +74,11 @@ ASSUMPTIONS = [
     'waits (Model/Retry.lean: sleep is not an effect of the model); durations are judged on the real code only',
     'an outcome sequence is a finite prefix followed by one letter repeated for ever; the theorems quantify over all of them and all '
     'budgets, the exploration over the prefixes a run can consume',
+    '"timeout" of the property\'s alphabet has two forms - a response with completion code C3h (letter T) and no answer at all '
+    '(letter N: the callable raises pyipmi.errors.IpmiTimeoutError) - and the property does not say which: both are letters.  '
+    'On the clean tree N propagates to the caller after that request (the library\'s own error type, bounded): accepted as '
+    '"propagate"; a bounded repeat where the helper repeats timeouts would be accepted by the oracle too (the model tie would '
+    'still report the change).  The byte-level SDR / SEL devices of the Lean model have no letter N: oracle only there',
     'get_sdr_chunk_helper with retry=0 counts below zero and is outside the model (budgets are >= 1)',
     'record-chunk fetching = the SDR path (get_sdr_chunk_helper, get_sdr_data_helper over _get_sdr_chunk / _get_device_sdr_chunk, '
     'the entries generators) AND the two loops of the anchor file pyipmi/sel.py (get_sel_entry: chunk fetching by partial reads; '
@@ -80,14 +97,19 @@ ASSUMPTIONS = [
 ]
 TRUSTED = ['harness/translate/loops11.py', 'harness/sim/dev11.py']
 
-ALPHABET = ['C', 'P', 'R', 'T', 'U', 'B', 'O193']
+# "timeout" has two forms and the property does not say which: T = a response with completion code C3h, N = NO ANSWER
+# at all - the callable (send_fn / clear_fn / interface.send_and_receive / the byte-level interface) RAISES
+# pyipmi.errors.IpmiTimeoutError, which is what the rmcp / ipmb / aardvark interfaces do when the target is silent
+ALPHABET = ['C', 'P', 'R', 'T', 'U', 'B', 'O193', 'N']
+NOANS = -1                      # "completion code" of N in the traces (there is none)
 # exhaustive exploration of the SDR reads: "other error" includes 0xCA, which get_sdr_data_helper adapts to;
 # "in progress" is completion code 0 like "completed" for a Get (the seeded sequences use it)
-ALPHABET_SDR = ['C', 'R', 'T', 'U', 'B', 'O193', 'O202']
+ALPHABET_SDR = ['C', 'R', 'T', 'U', 'B', 'O193', 'O202', 'N']
 # the SEL loops: "completed" is completed with k bytes, 0 <= k <= requested - C = all, S<k> = at most k
 ALPHABET_SEL = ALPHABET_SDR + ['S0', 'S1', 'S5']
 CODE = {'C': 0x00, 'P': 0x00, 'R': 0xC5, 'T': 0xC3, 'U': 0xCE, 'B': 0xC0}
 
+MODEL_N = True                  # the Lean driver follows outcome sequences with N (Model/RetryNoAnswer.lean)
 _gen = None
 _gen10 = None
 _clock = None                   # the dev11.FakeTime in place while the helpers run (run / replay)
@@ -102,14 +124,21 @@ class Res(tuple):
 
 
 def code_of(letter):
+    if letter == 'N':               # no answer: IpmiTimeoutError is raised, there is no completion code
+        return NOANS
     if letter[0] == 'S':            # completed (with at most <k> record bytes)
         return 0
     return CODE[letter] if letter in CODE else int(letter[1:])
 
 
+def _no_answer():
+    from pyipmi.errors import IpmiTimeoutError
+    return IpmiTimeoutError()
+
+
 def cap_of(letter):
     """S<k> -> k (the answer to a Get SEL Entry carries at most k record bytes); any other letter -> None"""
-    return int(letter[1:]) if letter[0] == 'S' else None
+    return int(letter[1:]) if letter[0] == 'S' and letter != 'N' else None
 
 
 def translate(ctx):
@@ -153,6 +182,8 @@ class Script(object):
     def reserve(self):
         """reserve_fn(): grants the next id, or raises CompletionCodeError as the plan says"""
         c = self.reserve_code()
+        if c == NOANS:
+            raise _no_answer()
         if c != 0:
             from pyipmi.errors import CompletionCodeError
             raise CompletionCodeError(c)
@@ -183,6 +214,8 @@ def run_chunk(budget, res0, letters, tail, rplan=()):
     def send_fn(r):
         l = s.next()
         s.trace.append('k%d:%s' % (r.reservation_id, l))
+        if l == 'N':
+            raise _no_answer()
         return _Rsp(code_of(l))
     tag, _ = dev11.outcome_of(lambda: H.get_sdr_chunk_helper(send_fn, req, s.reserve, retry=budget) and None)
     return tag, s.trace
@@ -199,6 +232,8 @@ def _clear_fn(s):
             return constants.REPOSITORY_ERASURE_COMPLETED
         if l == 'P':
             return constants.REPOSITORY_ERASURE_IN_PROGRESS
+        if l == 'N':
+            raise _no_answer()
         raise CompletionCodeError(code_of(l))
     return clear_fn
 
@@ -227,6 +262,8 @@ def run_send(budget, letters, tail):
             c = code_of(l)
             if c == 0:
                 return rsp
+            if c == NOANS:
+                raise _no_answer()
             raise CompletionCodeError(c)
     ipmi = pyipmi.Ipmi(interface=Iface())
     ipmi.target = None
@@ -252,6 +289,8 @@ def run_glue(name, budget, letters, tail, rplan=()):
     def handler(nf, cmd, data):
         if nf == netfn and cmd == cmd_res and len(data) == 0:
             c = s.reserve_code()
+            if c == NOANS:
+                raise _no_answer()
             if c != 0:
                 return bytes([c])           # the Reserve command itself is refused
             r = s.grant()
@@ -265,6 +304,8 @@ def run_glue(name, budget, letters, tail, rplan=()):
                 return bytes([0x00, 0x01])
             if l == 'P':
                 return bytes([0x00, 0x00])
+            if l == 'N':
+                raise _no_answer()
             return bytes([code_of(l)])
         notes.append('unexpected request %02x %02x %s' % (nf, cmd, data.hex()))
         return bytes([0xC1])
@@ -311,6 +352,8 @@ def run_sdr(helper, rv, letters, tail):
             l = s.next()
             c = code_of(l)
             s.trace.append('%s%d:%d:%d:%d:%d' % ('g' if mine else 'h', res, rid, off, cnt, c))
+            if c == NOANS:
+                raise _no_answer()
             if c != 0:
                 return bytes([c])
             hit = _sdr_lookup(rid)
@@ -368,6 +411,8 @@ def run_sel(helper, budget, rv, letters, tail, rplan=()):
             rounds[0] += 1
             gets[0] = 0
             c = s.reserve_code()
+            if c == NOANS:
+                raise _no_answer()
             if c != 0:
                 return bytes([c])
             r = s.grant()
@@ -381,6 +426,8 @@ def run_sel(helper, budget, rv, letters, tail, rplan=()):
             c = code_of(l)
             if c != 0:
                 s.trace.append('g%d:%d:%d:%d:%d:0' % (res, rid, off, cnt, c))
+                if c == NOANS:
+                    raise _no_answer()
                 return bytes([c])
             served = SEL_REC[off:] if cnt == 0xFF else SEL_REC[off:off + cnt]
             if cap_of(l) is not None:
@@ -392,6 +439,8 @@ def run_sel(helper, budget, rv, letters, tail, rplan=()):
             l = s.next()
             c = code_of(l)
             s.trace.append('d%d:%d:%d' % (res, rid, c))
+            if c == NOANS:
+                raise _no_answer()
             if c != 0:
                 return bytes([c])
             return bytes([0, data[2], data[3]])
@@ -488,6 +537,13 @@ def model_line(helper, budget, rv, letters, tail, send_variant, stale_variant=Tr
         if SEL_VARIANT['budget'] is None:
             return 'selgac %s f%d 1 %s' % (fl, SEL_GAC_FUEL, common)
         return 'selgac %s b%d 1 %s' % (fl, SEL_VARIANT['budget'] if budget is None else budget, common)
+    if ('N' in letters or tail == 'N' or 'N' in rplan) and helper not in SDR_HELPERS:
+        # the alphabet with N = no answer: Model/RetryNoAnswer.lean
+        if helper == 'chunk':
+            return 'chunkx %d %d %s %s %s' % (budget, rv, rp, ls, tail)
+        if helper == 'send':
+            return 'sendx %d %d %s %s' % (1 if send_variant else 0, budget, ls, tail)
+        return 'clearx %d %s %s %s %s' % (budget, '-' if rv is None else rv, rp, ls, tail)
     if rplan and helper == 'chunk':
         return 'chunkr %d %d %s %s %s' % (budget, rv, rp, ls, tail)
     if rplan and helper not in SDR_HELPERS and helper != 'send':
@@ -532,13 +588,22 @@ def oracle_sdr(helper, rv, tag, trace):
     kind, store = helper.split(':')
     name = {'data:r': 'get_repository_sdr', 'data:d': 'get_device_sdr', 'list:r': 'sdr_repository_entries',
             'list:d': 'device_sdr_entries'}[helper]
-    if tag.startswith('py:Hang'):
+    noans = [i for i, e in enumerate(trace) if e[0] == 'g' and e.endswith(':%d' % NOANS)]
+    limit = SDR_BOUND if kind == 'data' else 1 + (SDR_BOUND - 1) * len(SDR_RECS)
+    na_repeated = bool(noans) and (len(noans) > 1 or noans[-1] != len(trace) - 1)
+    if na_repeated and (tag.startswith('py:Hang') or len(trace) > limit):
+        bad.append(_unbounded_noanswer(helper, name, len(trace), len(noans), limit, tag))
+    elif tag.startswith('py:Hang'):
         bad.append(('unbounded:%s' % name, '%s does not stop (call guard hit)' % name))
+    elif tag == 'IpmiTimeoutError' and noans and noans[-1] == len(trace) - 1:
+        pass                            # the target did not answer the last request: the library's own error propagates
     elif not tag.startswith('ok=') and tag != 'RetryError' and not tag.startswith('CompletionCodeError:'):
         bad.append(('other-exception:%s' % name, '%s ends with %s' % (name, tag)))
-    limit = SDR_BOUND if kind == 'data' else 1 + (SDR_BOUND - 1) * len(SDR_RECS)
-    if len(trace) > limit:
+    if len(trace) > limit and not na_repeated:
         bad.append(('unbounded:%s' % name, '%s made %d requests (bound %d)' % (name, len(trace), limit)))
+    if noans and noans[-1] == len(trace) - 1 and tag not in ('IpmiTimeoutError', 'RetryError') and not tag.startswith('py:Hang'):
+        bad.append(('%s:timeout-exception-swallowed' % helper, '%s: the last request got no answer (IpmiTimeoutError raised by the '
+                    'interface) and the operation ended with %s' % (name, tag)))
     if any(e[0] in 'wh?' for e in trace):
         bad.append(('data_helper:request-to-other-store', '%s sent %s' % (
             name, [e for e in trace if e[0] in 'wh?'][0])))
@@ -565,7 +630,7 @@ def oracle_sdr(helper, rv, tag, trace):
                 break
     # unexpected completion codes propagate (0xC5 / 0xC3 / 0xCE are retried, 0xCA shrinks the request)
     for i, c in gets:
-        if c not in (0x00, 0xC5, 0xC3, 0xCE, 0xCA):
+        if c not in (0x00, 0xC5, 0xC3, 0xCE, 0xCA, NOANS):
             if tag != 'CompletionCodeError:%d' % c or i != len(trace) - 1:
                 bad.append(('code-not-propagated:%s' % name, '%s got completion code 0x%02x at request %d of %d and ended with %s' % (
                     name, c, i, len(trace), tag)))
@@ -597,6 +662,18 @@ def oracle_sel(helper, budget, rv, tag, trace):
         elif e[0] == 'd':
             cur['del'] = [int(x) for x in e[1:].split(':')]
     allowed_rounds = (SEL_DEFAULT_ROUNDS if budget is None else budget)
+    noans = [i for i, e in enumerate(trace) if (e[0] == 'g' and e.split(':')[4] == str(NOANS)) or
+             (e[0] == 'd' and e.split(':')[2] == str(NOANS)) or e == 'f%d' % NOANS]
+    last_noans = bool(noans) and noans[-1] == len(trace) - 1
+    if noans and not (last_noans and len(noans) == 1) and (tag == 'py:nontermination' or len(trace) > SEL_ROUND_BOUND * allowed_rounds):
+        bad.append(_unbounded_noanswer(helper, name, len(trace), len(noans), SEL_ROUND_BOUND * allowed_rounds, tag))
+    elif noans and not last_noans:
+        # the SEL loops repeat behind C5h / CAh only (a C3h answer propagates): nothing is sent behind "no answer"
+        bad.append(('%s:request-after-timeout-exception' % helper, '%s: request %d of %d got no answer (IpmiTimeoutError raised by '
+                    'the interface) and the operation went on sending; it ended with %s' % (name, noans[0] + 1, len(trace), tag)))
+    if last_noans and tag != 'IpmiTimeoutError' and tag != 'py:nontermination':
+        bad.append(('%s:timeout-exception-swallowed' % helper, '%s: the last request got no answer (IpmiTimeoutError raised by the '
+                    'interface) and the operation ended with %s' % (name, tag)))
     # bounded; the retry-exhausted error instead of a loop that goes on
     long_read = [r for r in rounds if len(r['gets']) > SEL_ENTRY_BOUND]
     if long_read or (entry and tag == 'py:nontermination'):
@@ -623,6 +700,8 @@ def oracle_sel(helper, budget, rv, tag, trace):
         bad.append((sig, 'get_and_clear_sel_entry is in round %d after %d requests and has not given up (retry budget %s: at most %d '
                     'rounds, %d requests)' % (len(rounds), len(trace), 'default' if budget is None else budget, allowed_rounds,
                                               SEL_ROUND_BOUND * allowed_rounds)))
+    elif tag == 'IpmiTimeoutError' and last_noans:
+        pass                            # no answer to the last request: the library's own error propagates
     elif not tag.startswith('ok=') and tag != 'RetryError' and not tag.startswith('CompletionCodeError:'):
         bad.append(('other-exception:%s' % name, '%s ends with %s' % (name, tag)))
     if any(e == '?' for e in trace):
@@ -647,6 +726,8 @@ def oracle_sel(helper, budget, rv, tag, trace):
             c = int(e.split(':')[4 if e[0] == 'g' else 2])
             if c == 0 or (e[0] == 'g' and c == 0xCA) or (not entry and c == 0xC5):
                 c = None
+        if c == NOANS:
+            break                       # judged above
         if c is not None:
             if tag != 'CompletionCodeError:%d' % c or i != len(trace) - 1:
                 bad.append(('code-not-propagated:%s' % name, '%s got completion code 0x%02x at request %d of %d (%s) and ended with %s' % (
@@ -678,6 +759,17 @@ def oracle_sel(helper, budget, rv, tag, trace):
             bad.append(('result-without-delete:%s' % name, 'get_and_clear_sel_entry returned a record but its last request was %s' % (
                 trace[-1] if trace else 'none')))
     return bad
+
+
+def _unbounded_noanswer(helper, name, ncalls, n_noans, bound, tag):
+    """-> (signature, text): the operation is still sending / sent more than its bound, and the target gave NO ANSWER
+    (the interface raised IpmiTimeoutError) to some of the requests."""
+    return ('%s:unbounded:timeout-exception' % helper,
+            '%s made %d requests%s, %d of them got no answer at all (the callable raised pyipmi.errors.IpmiTimeoutError - the '
+            'exception form of "timeout", as the rmcp / ipmb / aardvark interfaces report a silent target) and %s; expected: a '
+            'bounded number of requests, then the retry-exhausted error or the IpmiTimeoutError itself' % (
+                name, ncalls, '' if bound is None else ' (bound %d)' % bound, n_noans,
+                'it is still sending (request cap hit)' if tag.startswith(('py:Hang', 'py:nontermination')) else 'ended with ' + tag))
 
 
 HELPER_NAME = {'chunk': 'get_sdr_chunk_helper', 'clear': 'clear_repository_helper', 'send': 'send_message',
@@ -723,18 +815,34 @@ def _oracle(helper, budget, rv, tag, trace):
     bad = []
     ev = _events(trace)
     name = {'chunk': 'get_sdr_chunk_helper', 'clear': 'clear_repository_helper', 'send': 'send_message'}.get(helper, helper)
-    if tag.startswith('py:Hang'):
-        bad.append(('unbounded:%s' % name, '%s does not stop (call guard hit)' % name))
-    elif tag not in ('ok', 'RetryError') and not tag.startswith('CompletionCodeError:'):
-        bad.append(('other-exception:%s' % name, '%s ends with %s' % (name, tag)))
     ncalls = sum(1 for e in ev if e[0] in 'ckx')
     nres = sum(1 for e in ev if e[0] in 'rf')
+    noans = [i for i, e in enumerate(ev) if (e[0] in 'ckx' and e[-1] == 'N') or (e[0] == 'f' and e[1] == NOANS)]
+    last_noans = bool(noans) and noans[-1] == len(ev) - 1
+    # the unanswered calls are to blame for a broken bound only if something was sent BEHIND one of them
+    na_repeated = bool(noans) and (len(noans) > 1 or not last_noans)
+    if tag.startswith('py:Hang') and na_repeated:
+        bad.append(_unbounded_noanswer(helper, name, ncalls, len(noans), None, tag))
+    elif tag.startswith('py:Hang'):
+        bad.append(('unbounded:%s' % name, '%s does not stop (call guard hit)' % name))
+    elif tag == 'IpmiTimeoutError' and last_noans:
+        pass                            # no answer to the last request: the library's own error type propagates
+    elif tag not in ('ok', 'RetryError') and not tag.startswith('CompletionCodeError:'):
+        bad.append(('other-exception:%s' % name, '%s ends with %s' % (name, tag)))
+    if last_noans and tag not in ('IpmiTimeoutError', 'RetryError') and not tag.startswith('py:Hang'):
+        bad.append(('%s:timeout-exception-swallowed' % helper, '%s: the last call got no answer (IpmiTimeoutError raised) and '
+                    'the helper ended with %s' % (name, tag)))
     res_failed = False
     for i, e in enumerate(ev):
         if e[0] == 'f':
             # reserve_fn failed: that CompletionCodeError is what the helper ends with, nothing is called after it
             res_failed = True
-            if tag != 'CompletionCodeError:%d' % e[1] or i != len(ev) - 1:
+            if e[1] == NOANS:
+                if tag != 'IpmiTimeoutError' or i != len(ev) - 1:
+                    bad.append(('reserve-failure-not-propagated:%s' % name,
+                                '%s: reserve_fn raised IpmiTimeoutError (no answer) at call %d of %d and the helper ended '
+                                'with %s' % (name, i + 1, len(ev), tag)))
+            elif tag != 'CompletionCodeError:%d' % e[1] or i != len(ev) - 1:
                 bad.append(('reserve-failure-not-propagated:%s' % name,
                             '%s: reserve_fn raised CompletionCodeError(0x%02x) at call %d of %d and the helper ended with %s' % (
                                 name, e[1], i + 1, len(ev), tag)))
@@ -745,7 +853,10 @@ def _oracle(helper, budget, rv, tag, trace):
         lim, rlim = budget, 0
     else:
         lim, rlim = 2 * (budget - 1), 2 * (budget - 1) + 1
-    if ncalls > lim or nres > rlim:
+    if (ncalls > lim or nres > rlim) and na_repeated:
+        if not tag.startswith('py:Hang'):
+            bad.append(_unbounded_noanswer(helper, name, ncalls, len(noans), lim, tag))
+    elif ncalls > lim or nres > rlim:
         bad.append(('unbounded:%s' % name, '%s made %d requests and %d reservations with budget %d (bound %d / %d)' % (
             name, ncalls, nres, budget, lim, rlim)))
     # most recently obtained reservation
@@ -779,6 +890,10 @@ def _oracle(helper, budget, rv, tag, trace):
     expected = {'chunk': ('C', 'P', 'R', 'T', 'U'), 'send': ('C', 'P', 'B')}.get(helper, ('C', 'P', 'R'))
     letters = [e[-1] for e in ev if e[0] in 'ckx']
     for i, l in enumerate(letters):
+        if l == 'N':
+            # no answer (exception form of "timeout"): propagating it is fine, so is a bounded repeat where the helper
+            # repeats timeouts (judged by the bound above); send_message repeats only after node busy (below)
+            continue
         if l not in expected and code_of(l) not in [code_of(x) for x in expected]:
             want = 'CompletionCodeError:%d' % code_of(l)
             if tag != want or i != len(letters) - 1:
@@ -802,7 +917,8 @@ def _oracle(helper, budget, rv, tag, trace):
         for l in letters[:-1]:
             if code_of(l) != 0xC0:
                 bad.append(('send_message:retry-after-non-busy',
-                            'send_message repeated the transfer after completion code 0x%02x' % code_of(l)))
+                            'send_message repeated the transfer after %s' % (
+                                'no answer (IpmiTimeoutError)' if l == 'N' else 'completion code 0x%02x' % code_of(l))))
                 break
     return bad
 
@@ -857,14 +973,29 @@ class _Found(object):
             self.best[sig] = (k, what, case, expected, observed)
 
     def flush(self, ctx):
-        for sig, (_, what, case, expected, observed) in sorted(self.best.items()):
+        # a loop that does not end first (the report shows the first 8 signatures), the helper named by the property
+        # before the operations above it
+        def order(item):
+            sig, case = item[0], item[1][2]
+            return ('unbounded' not in sig, case['helper'] not in ('chunk', 'clear', 'send'), sig)
+        for sig, (_, what, case, expected, observed) in sorted(self.best.items(), key=order):
             ctx.violate('C13:' + sig, what, case, expected=expected, observed=observed)
 
 
 def _check_batch(ctx, drv, batch, send_variant, found, stale_variant=True):
     batch = [x if len(x) == 7 else x + ((),) for x in batch]
     lines = [model_line(h, b, rv, p, t or 'C', send_variant, stale_variant, rp) for (h, b, rv, p, t, _, rp) in batch]
-    models = drv.ask_many(lines) if drv is not None else [None] * len(lines)
+    if drv is None:
+        models = [None] * len(lines)
+    else:
+        # sequences with N (no answer): chunk / clear / send / the clear glue are followed by Model/RetryNoAnswer.lean; the
+        # byte-level SDR / SEL devices of the model have no such letter - those cases are judged by the oracle only
+        ask = [i for i, (h, b, rv, p, t, _, rp) in enumerate(batch)
+               if not ('N' in p or t == 'N' or 'N' in rp) or (MODEL_N and h not in SDR_HELPERS and h not in SEL_HELPERS)]
+        got = drv.ask_many([lines[i] for i in ask])
+        models = [None] * len(lines)
+        for i, m in zip(ask, got):
+            models[i] = m
     for (h, b, rv, p, t, res, rp), m in zip(batch, models):
         tag, trace = res
         waits, rejected = getattr(res, 'waits', ()), getattr(res, 'rejected', ())
@@ -874,6 +1005,8 @@ def _check_batch(ctx, drv, batch, send_variant, found, stale_variant=True):
             ctx.count('reserve-refused:%s' % ('first' if code_of(rp[0]) else 'renewal'))
         ctx.case((h, b, rv, p, t, rp), nontrivial=len(trace) > 0)
         ctx.count('helper:' + h)
+        if 'N' in p or t == 'N' or 'N' in rp:
+            ctx.count('no-answer(IpmiTimeoutError raised):%s' % ('oracle-only' if m is None else 'model+oracle'))
         ctx.count('outcome:' + (tag.split(':')[0]))
         ctx.count('consumed:%s' % (lambda n: n if n < 12 else '12+')(sum(1 for e in trace if e[0] != 'r')))
         code_s = '%s %s' % (tag, ','.join(trace) or '-')
@@ -945,7 +1078,7 @@ def run(ctx):
         # reserve outcomes: the k-th Reserve (k = 0, 1, 2) refused with node busy / timeout / another code
         rdepth = 3 if ctx.tier == 'quick' else 5
         for k in range(3):
-            for l in ('B', 'T', 'O209'):
+            for l in ('B', 'T', 'O209', 'N'):
                 rp = ('C',) * k + (l,)
                 for b in (2, 4):
                     plans.append(('chunk', b, 3, rdepth, rp))
@@ -1008,7 +1141,7 @@ def run(ctx):
             b = rng.randrange(1, 13)
             rv = 3 if h == 'chunk' else (rng.choice([None, rng.randrange(1, 60000)]) if h == 'clear' else None)
             k = rng.randrange(0, 2 * b + 3)
-            weights = {'chunk': 'RRTTUUCPBO', 'send': 'BBBBBCPRTUO'}.get(h, 'PPPRRRCCBTUO')
+            weights = {'chunk': 'RRTTUUCPBON', 'send': 'BBBBBCPRTUON'}.get(h, 'PPPRRRCCBTUON')
             letters = []
             for _i in range(k):
                 l = rng.choice(weights)
@@ -1024,7 +1157,7 @@ def run(ctx):
             rv = rng.choice([None, None, rng.randrange(1, 0xFFF0)]) if h.startswith('data') else None
             letters = []
             for _i in range(rng.randrange(0, 24)):
-                l = rng.choice('CCCCCCPRRRTUAAO')
+                l = rng.choice('CCCCCCPRRRTUAAON')
                 letters.append({'A': 'O202', 'O': 'O%d' % rng.choice([0xC0, 0xC1, 0xC9, 0xCB, 0xFF, 0x80])}.get(l, l))
             t = rng.choice(['C', 'C', 'C', 'P', 'R', 'T', 'O202'])
             batch.append((h, 5, rv, tuple(letters), t, runner(h, 5, rv)(tuple(letters), t)))
@@ -1038,7 +1171,7 @@ def run(ctx):
             rv = rng.randrange(1, 0xFFF0) if h == 'sel:entry' else None
             letters = []
             for _i in range(rng.randrange(0, 40)):
-                l = rng.choice('CCCCCPRRRAAAAAATUOSSSSS')
+                l = rng.choice('CCCCCPRRRAAAAAATUOSSSSSN')
                 letters.append({'A': 'O202', 'O': 'O%d' % rng.choice([0xC0, 0xC1, 0xC9, 0xCB, 0xCC, 0xFF, 0x80]),
                                 'S': 'S%d' % rng.choice([0, 1, 1, 2, 3, 4, 7, 8, 15, 16, 20])}.get(l, l))
             t = rng.choice(['C', 'C', 'C', 'P', 'R', 'T', 'O202', 'O202', 'S0', 'S1', 'S3'])
@@ -1062,8 +1195,40 @@ def _try_driver(ctx):
 
 
 def search(ctx):
-    """The property oracle already judged the real code on every explored sequence in `run`."""
-    return
+    """The property oracle already judged the real code on every explored sequence in `run`.  When a tie broke and `run`
+    left no concrete violation (cut short by the time budget, driver unavailable ...), the class the ties are blind to is
+    tried once more on its own: every helper x budgets 1..12 x (reservation) x every sequence of up to 3 outcomes that
+    contains N (the callable RAISES IpmiTimeoutError) x every tail - oracle only."""
+    global _clock
+    found = _Found()
+    with dev11.no_sleep() as clock:
+        _clock = clock
+        try:
+            pre = [p for n in (0, 1, 2, 3) for p in itertools.product(ALPHABET, repeat=n)]
+            for b in range(1, 13):
+                for h, rv in (('chunk', 3), ('clear', None), ('clear', 7), ('send', None), ('clear_sel', None),
+                              ('clear_sdr_repository', None)):
+                    fn = runner(h, b, rv)
+                    for p in pre:
+                        for t in (ALPHABET if 'N' in p else ('N',)):
+                            res = fn(p, t)
+                            ctx.count('search:no-answer')
+                            case = {'helper': h, 'budget': b, 'reservation': rv, 'script': list(p), 'tail': t}
+                            for sig, what in oracle(h, b, rv, res[0], res[1], res.waits, res.rejected):
+                                found.add(sig, what, case, 'see property clause', ('%s %s' % (res[0], ','.join(res[1])))[:700])
+            for h in SDR_HELPERS + SEL_HELPERS:
+                b, rv = (None, 7) if h == 'sel:entry' else (None, None) if h == 'sel:gac' else (5, None)
+                fn = runner(h, b, rv)
+                for p in [q for n in (0, 1, 2) for q in itertools.product(('C', 'R', 'T', 'O202', 'N'), repeat=n)]:
+                    for t in (('C', 'N') if 'N' in p else ('N',)):
+                        res = fn(p, t)
+                        ctx.count('search:no-answer')
+                        case = {'helper': h, 'budget': b, 'reservation': rv, 'script': list(p), 'tail': t}
+                        for sig, what in oracle(h, b, rv, res[0], res[1], res.waits, res.rejected):
+                            found.add(sig, what, case, 'see property clause', ('%s %s' % (res[0], ','.join(res[1])))[:700])
+        finally:
+            _clock = None
+    found.flush(ctx)
 
 
 def replay(ctx, v):
